@@ -211,6 +211,103 @@ Fixpoint drain (fuel : nat) (st : sc) (segs : list bytes) (fin : N) (dt : bool) 
       end
   end.
 
+(* ---- the same scanner, one commentReader.Read(p) at a time ----
+   scan_tok: the inner loop "for v.s.Scan() { if len(token) > 0 { write; break } }" -- Scanner.Scan
+   until the first non-empty token or until it returns false.  The code is the body of [drain];
+   the unused fuel is handed back so that a sequence of calls spends fuel exactly like drain. *)
+Inductive sres :=
+| STok (tok : bytes) (st : sc) (segs : list bytes) (serr : option N)
+| SEnd (r : res unit).      (* Scan returned false; r = what s.Err() says (Ok tt = nil) *)
+
+Fixpoint scan_tok (fuel : nat) (st : sc) (segs : list bytes) (fin : N) (dt : bool) (serr : option N)
+  : sres * nat :=
+  match fuel with
+  | O => (SEnd (Err E_FUEL), O)
+  | S fuel' =>
+      let at_eof := match serr with Some _ => true | None => false end in
+      let sp := if (0 <? plen st) || at_eof then split (pend st) at_eof else Ok More in
+      match sp with
+      | Panic s => (SEnd (Panic s), fuel')
+      | Err e => (SEnd (Err (set_err serr e)), fuel')
+      | Ok (Tok adv tok) =>
+          if (adv <? 0)%Z || (Z.of_N (plen st) <? adv)%Z then (SEnd (Err (set_err serr E_ADVANCE)), fuel')
+          else if (adv =? 0)%Z then (SEnd (Err E_STUCK), fuel')
+          else
+            let n := Z.to_N adv in
+            let st' := {| pend := skipn (N.to_nat n) (pend st); plen := plen st - n;
+                          start := start st + n; cap := cap st |} in
+            match tok with
+            | [] => scan_tok fuel' st' segs fin dt serr
+            | _ :: _ => (STok tok st' segs serr, fuel')
+            end
+      | Ok More =>
+          match serr with
+          | Some e => (SEnd (if e =? 0 then Ok tt else Err e), fuel')
+          | None =>
+              let st1 := if (0 <? start st) && ((start st + plen st =? cap st) || (cap st / 2 <? start st))
+                         then {| pend := pend st; plen := plen st; start := 0; cap := cap st |} else st in
+              if (start st1 + plen st1 =? cap st1) && ((max_token <=? cap st1) || (max_int / 2 <? cap st1))
+              then (SEnd (Err E_TOOLONG), fuel')
+              else
+                let st2 := if start st1 + plen st1 =? cap st1
+                           then let ns := cap st1 * 2 in
+                                let ns := if ns =? 0 then start_buf_size else ns in
+                                {| pend := pend st1; plen := plen st1; start := 0; cap := N.min ns max_token |}
+                           else st1 in
+                let space := cap st2 - (start st2 + plen st2) in
+                let '(got, segs', serr') := read_more space 0 segs fin dt in
+                let st3 := {| pend := pend st2 ++ got; plen := plen st2 + lenN got;
+                              start := start st2; cap := cap st2 |} in
+                scan_tok fuel' st3 segs' fin dt serr'
+          end
+      end
+  end.
+
+(* commentReader: v.b (bytes.Buffer) and v.s *)
+Record rstate := { rb : bytes; rst : sc; rsegs : list bytes; rserr : option N; rfuel : nat }.
+
+Inductive rd_status := RNil | REnd (r : res unit).   (* err == nil | io.EOF (Ok tt) or an error *)
+
+(* bytes.Buffer.Read(p) on a non-empty buffer: n = copy(p, buf); also (0, nil) for len(p) = 0 *)
+Definition deliver (n : N) (b : bytes) : bytes * bytes :=
+  match takeN n b with Some (a, r) => (a, r) | None => (b, []) end.
+
+(* one call Read(p) with len(p) = n *)
+Definition read_p (fin : N) (dt : bool) (n : N) (s : rstate) : bytes * rd_status * rstate :=
+  match rb s with
+  | _ :: _ =>
+      let '(a, r) := deliver n (rb s) in
+      (a, RNil, {| rb := r; rst := rst s; rsegs := rsegs s; rserr := rserr s; rfuel := rfuel s |})
+  | [] =>
+      match scan_tok (rfuel s) (rst s) (rsegs s) fin dt (rserr s) with
+      | (STok tok st' segs' serr', f') =>
+          (* the token is in v.b now; then err = v.s.Err() is tested before the buffer is read *)
+          let failed := match serr' with Some e => negb (e =? 0) | None => false end in
+          if failed then
+            ([], REnd (Err (match serr' with Some e => e | None => 0 end)),
+             {| rb := tok; rst := st'; rsegs := segs'; rserr := serr'; rfuel := f' |})
+          else
+            let '(a, r) := deliver n tok in
+            (a, RNil, {| rb := r; rst := st'; rsegs := segs'; rserr := serr'; rfuel := f' |})
+      | (SEnd r, f') =>
+          ([], REnd r, {| rb := []; rst := rst s; rsegs := rsegs s; rserr := rserr s; rfuel := f' |})
+      end
+  end.
+
+(* a consumer calling Read with buffers of the given sizes until the first error (io.EOF
+   included) or until it stops calling; None = it stopped while the reader had not ended *)
+Fixpoint consume (fin : N) (dt : bool) (rds : list N) (s : rstate) (acc : list bytes)
+  : list bytes * option (res unit) :=
+  match rds with
+  | [] => (acc, None)
+  | n :: t =>
+      let '(a, e, s') := read_p fin dt n s in
+      match e with
+      | RNil => consume fin dt t s' (push a acc)
+      | REnd r => (push a acc, Some r)
+      end
+  end.
+
 Definition flat (out : list bytes) : bytes := concat (rev out).
 
 Definition drain_fuel (segs : list bytes) : nat :=
@@ -219,6 +316,12 @@ Definition drain_fuel (segs : list bytes) : nat :=
 Definition reader_dt (segs : list bytes) (fin : N) (dt : bool) : bytes * res unit :=
   let '(out, r) := drain (drain_fuel segs) sc0 segs fin dt None [] in (flat out, r).
 Definition reader (segs : list bytes) (fin : N) : bytes * res unit := reader_dt segs fin false.
+
+Definition rstate0 (segs : list bytes) : rstate :=
+  {| rb := []; rst := sc0; rsegs := segs; rserr := None; rfuel := drain_fuel segs |}.
+(* what a consumer with read sizes rds receives, and how it ended (None: it stopped reading) *)
+Definition reader_rd (segs : list bytes) (fin : N) (dt : bool) (rds : list N) : bytes * option (res unit) :=
+  let '(out, r) := consume fin dt rds (rstate0 segs) [] in (flat out, r).
 
 (* ---- the segmentation-free specification: split applied to the whole remaining input ---- *)
 Fixpoint strip_go (fuel : nat) (d : bytes) (out : list bytes) : list bytes * res unit :=
@@ -290,7 +393,7 @@ Definition doc_ok (d : list item) (tail : option bytes) : bool :=
                                                   tail = () | (xbody); the rendering is cut into
                                                   segments of the given lengths (rest = last segment)
    dt <> 0: the last bytes are returned together with the final error.
-   rd (the consumer's read size) is not modelled: the output is what the consumer has received.
+   rd: the consumer's buffer sizes, see rds_of; the output is what the consumer has received.
    observation (0 xout) | (1 code xout) | (2); kind 1 appends the guard bit doc_ok *)
 Definition obs_of (r : bytes * res unit) (extra : list sx) : sx :=
   match r with
@@ -329,19 +432,54 @@ Fixpoint cut (lens : list sx) (d : bytes) : list bytes :=
   | _ :: t => cut t d
   end.
 
+(* the consumer's read sizes: rd = n (buffers of n bytes, as many calls as it takes: at most one
+   per input byte plus two) or rd = (calls n1 n2 ...) (the sizes n1 n2 ... cyclically, calls calls) *)
+Fixpoint cyc (calls : nat) (pat cur : list sx) : list N :=
+  match calls with
+  | O => []
+  | S c => match cur with
+           | SZ n :: t => Z.to_N n :: cyc c pat t
+           | _ :: t => cyc c pat t
+           | [] => match pat with SZ n :: t => Z.to_N n :: cyc c pat t | _ => [] end
+           end
+  end.
+Definition rds_of (rd : sx) (text : bytes) : option (list N) :=
+  match rd with
+  | SZ n => Some (repeat (Z.to_N n) (S (S (length text))))
+  | SL (SZ calls :: pat) => Some (cyc (Z.to_nat calls) pat pat)
+  | _ => None
+  end.
+
+Definition obs_rd (r : bytes * option (res unit)) (extra : list sx) : sx :=
+  match r with
+  | (o, Some (Ok _)) => SL (SZ 0 :: SB o :: extra)
+  | (o, Some (Err e)) => SL (SZ 1 :: sN e :: SB o :: extra)
+  | (_, Some (Panic _)) => s_panic
+  | (o, None) => SL (SZ 4 :: SB o :: extra)        (* the consumer stopped reading first *)
+  end.
+
 Definition run_c17 (c : sx) : sx :=
   match c with
-  | SL [SZ 0; SL segs; SZ fin; SZ _; SZ dt] =>
+  | SL [SZ 0; SL segs; SZ fin; rd; SZ dt] =>
       match sx_segs segs with
-      | Some s => if wf_bytesb (concat s) then obs_of (reader_dt s (Z.to_N fin) (negb (dt =? 0)%Z)) [] else bad_case
+      | Some s =>
+          match rds_of rd (concat s) with
+          | Some rds => if wf_bytesb (concat s) then obs_rd (reader_rd s (Z.to_N fin) (negb (dt =? 0)%Z) rds) [] else bad_case
+          | None => bad_case
+          end
       | None => bad_case
       end
-  | SL [SZ 1; SL items; SL tl; SL lens; SZ fin; SZ _; SZ dt] =>
+  | SL [SZ 1; SL items; SL tl; SL lens; SZ fin; rd; SZ dt] =>
       match sx_items items, (match tl with [] => Some None | [SB b] => Some (Some b) | _ => None end) with
       | Some d, Some tail =>
           let text := render_dec d tail in
-          if wf_bytesb text then obs_of (reader_dt (cut lens text) (Z.to_N fin) (negb (dt =? 0)%Z)) [sbool (doc_ok d tail)]
-          else bad_case
+          match rds_of rd text with
+          | Some rds =>
+              if wf_bytesb text
+              then obs_rd (reader_rd (cut lens text) (Z.to_N fin) (negb (dt =? 0)%Z) rds) [sbool (doc_ok d tail)]
+              else bad_case
+          | None => bad_case
+          end
       | _, _ => bad_case
       end
   | _ => bad_case
